@@ -133,6 +133,13 @@ Theorem C17_child_shadow : forall s c n v, good (length s) c ->
   /\ (forall n', normalize n' <> normalize n -> get_data s2 ch n' = get_data s c n').
 Proof. exact child_shadow. Qed.
 
+(* the same for functions: a fresh child offers exactly the overload layers its receiver offers (its own empty layer
+   is dropped, it is not exclusive), and creating it changes what no context offers *)
+Theorem C17_child_transparent_functions : forall s c d n,
+  collect_functions (fst (create_child s c)) (snd (create_child s c)) n = collect_functions s c n
+  /\ collect_functions (fst (create_child s c)) d n = collect_functions s d n.
+Proof. exact (fun s c d n => conj (child_transparent_functions s c n) (child_keeps_others_functions s c d n)). Qed.
+
 (* the premise of C17_child_shadow holds for every context of every reachable state *)
 Theorem C17_history_good : forall ops,
   Forall (good (length (st (run_state init_state ops)))) (env (run_state init_state ops)).
@@ -149,6 +156,7 @@ Proof. vm_compute. repeat split. Qed.
 
 Print Assumptions C17_child_transparent.
 Print Assumptions C17_child_shadow.
+Print Assumptions C17_child_transparent_functions.
 Print Assumptions C17_history_good.
 
 (* ---- convention-aware lookups (use_convention=True) ------------------------------------------------------------ *)
